@@ -206,10 +206,8 @@ class Check:
             rc, out, dt = sh(["lake", "env", "lean", path], cwd=LEAN)
         self.timing["audit_s"] = round(dt, 2)
         found = {}
-        for m in re.finditer(r"'([^']+)' depends on axioms: \[([^\]]*)\]", out):
-            found[m.group(1)] = [a.strip() for a in m.group(2).replace("\n", " ").split(",") if a.strip()]
-        for m in re.finditer(r"'([^']+)' does not depend on any axioms", out):
-            found[m.group(1)] = []
+        for m in re.finditer(r"^'(.+?)' (?:depends on axioms: \[([^\]]*)\]|does not depend on any axioms)", out, re.S | re.M):
+            found[m.group(1)] = [a.strip() for a in (m.group(2) or "").replace("\n", " ").split(",") if a.strip()]
         for _, n in thms:
             key = n
             ax = found.get(key)
